@@ -123,7 +123,17 @@ static char const *const c_name[] = {
     "FAIL:zero-matrix"};
 
 static unsigned ncls(int fam) { return fam == FAM_PLU ? G_NCLS : fam == FAM_LDL ? S_NCLS : C_NCLS; }
+#ifdef VF_FENV_ROTATE
+/* configurations fenv-exact*: one more PLU class outside the case plan of the default configurations (generator fx_gen_intlu below) */
+#define G_FX_INTLU ((unsigned)G_NCLS)
+static char const *cls_name(int fam, unsigned c)
+{
+    if (fam == FAM_PLU && c == G_FX_INTLU) { return "fenv:exact-Q*L0*U0-multipliers-k/4-integer-U0"; }
+    return fam == FAM_PLU ? g_name[c] : fam == FAM_LDL ? s_name[c] : c_name[c];
+}
+#else
 static char const *cls_name(int fam, unsigned c) { return fam == FAM_PLU ? g_name[c] : fam == FAM_LDL ? s_name[c] : c_name[c]; }
+#endif
 /* extreme-scaling classes: entries stay finite and normal-or-zero, but multipliers, products and solution components
    may underflow (and products may overflow) inside the library */
 static int is_xscale(int fam, unsigned c)
@@ -335,14 +345,18 @@ static void gen_btb(vf_rng *r, unsigned n, double delta, int neardep, double *A)
     mirror_lower(n, A);
     free(B);
 }
-/* integer L0 (entries -3..3; diagonal 1 if unit, else 1..4), optional integer D0; A = L0 D0 L0^T exactly */
+/* integer L0 (entries -3..3; diagonal 1 if unit, else 1, 2 or 4), optional integer D0; A = L0 D0 L0^T exactly.
+   DIVISORS ARE POWERS OF TWO (here and in every class that is judged with == or must fail by exact cancellation): the property does not fix
+   how a quotient is formed, and an implementation that multiplies by the correctly rounded reciprocal, a * fl(1/u), returns the exact quotient
+   only when 1/u is representable.  With l_kk in {1,2,4} (Cholesky pivots 1, 4, 16; LDL^T pivots the same) and D0 in +-{1,2,4} every quotient,
+   product (either association) and partial sum below is an exactly representable integer or dyadic for division and reciprocal alike. */
 static void gen_int_ldlt(vf_rng *r, unsigned n, int unit, double const *D0, double *L0out, double *A)
 {
     double *L = (double *)calloc((size_t)n * n, sizeof(double));
     for (unsigned i = 0; i < n; ++i)
     {
         for (unsigned j = 0; j < i; ++j) { L[(size_t)n * i + j] = (double)vf_range(r, -3, 3); }
-        L[(size_t)n * i + i] = unit ? 1.0 : (double)vf_range(r, 1, 4);
+        L[(size_t)n * i + i] = unit ? 1.0 : (double)(1 << vf_below(r, 3));
     }
     for (unsigned i = 0; i < n; ++i)
     {
@@ -779,6 +793,15 @@ static int gen_general(unsigned cls, unsigned n, vf_rng *r, double *A, char *not
         }
         else
         {
+            /* row b = 2^k * row a: the property names this input ("duplicated rows ... are reported as failure"), whatever the pivot at
+               which the two rows meet.  With the quotient formed by division the elimination cancels row b exactly (a/a = 1, operations on
+               exactly 2^k-scaled operands commute with the scaling).  An implementation for which fl(a * fl(1/a)) != 1 (one double in eight
+               in round-to-nearest) lets such an input through and breaks that sentence: both variants below MUST fail.
+               Two cases in three additionally make the meeting step a division by a power of two, so that the class also contains inputs
+               whose failure does not hinge on a/a = 1: rows a and b are 0 in the columns before j (multiplier 0, update x - u*0 = x: neither
+               chosen nor changed before step j) and carry +-2^K in column j with 2^K > 4 * 2^j * max|A| >= every other candidate of column j
+               (partial pivoting at most doubles the largest entry per step), so one of them is the pivot of step j and the multiplier of the
+               other is 2^-k or 2^k exactly.  j <= n-2 leaves enough other rows for the steps before j. */
             unsigned a = (unsigned)vf_below(r, n), b = (unsigned)vf_below(r, n - 1);
             int k = 0;
             if (b >= a) { ++b; }
@@ -787,8 +810,18 @@ static int gen_general(unsigned cls, unsigned n, vf_rng *r, double *A, char *not
                 k = (int)vf_range(r, 1, 20);
                 if (vf_chance(r, 1, 2)) { k = -k; }
             }
+            if (!vf_chance(r, 1, 3))
+            {
+                unsigned const j = (unsigned)vf_below(r, n - 1);
+                double mxa = 0;
+                for (size_t i = 0; i < (size_t)n * n; ++i) { if (fabs(A[i]) > mxa) { mxa = fabs(A[i]); } }
+                int const K = (mxa > 0 ? ilogb(mxa) : 0) + 3 + (int)j;
+                for (unsigned c = 0; c < j; ++c) { A[(size_t)n * a + c] = 0; }
+                A[(size_t)n * a + j] = vf_sign(r) * ldexp(1.0, K);
+                snprintf(note, nlen, "row %u = 2^%d * row %u, both 0 before column %u and +-2^%d (resp. 2^%d) in it", b, k, a, j, K, K + k);
+            }
+            else { snprintf(note, nlen, "row %u = 2^%d * row %u", b, k, a); }
             for (unsigned j = 0; j < n; ++j) { A[(size_t)n * b + j] = ldexp(A[(size_t)n * a + j], k); }
-            snprintf(note, nlen, "row %u = 2^%d * row %u", b, k, a);
         }
         break;
     }
@@ -816,7 +849,7 @@ static int gen_sym(unsigned cls, unsigned n, vf_rng *r, double *A, char *note, s
         double D0[NMAX];
         for (unsigned i = 0; i < n; ++i)
         {
-            int d = (int)vf_range(r, 1, 4);
+            int d = 1 << vf_below(r, 3); /* +-1, +-2, +-4: see gen_int_ldlt */
             D0[i] = vf_chance(r, 1, 2) ? -d : d;
         }
         if (cls == S_F_ZERO_D)
@@ -911,7 +944,7 @@ static int gen_spd(unsigned cls, unsigned n, vf_rng *r, double *A, char *note, s
     case C_SPD: gen_btb(r, n, vf_logu(r, -3.0, 0.0), 0, A); break;
     case C_SPD_INT:
         gen_int_ldlt(r, n, 0, NULL, NULL, A);
-        expect = EXP_SUCCESS; /* exact: every pivot is the perfect square l0_kk^2 >= 1 */
+        expect = EXP_SUCCESS; /* exact: every pivot is the perfect square l0_kk^2 in {1, 4, 16} */
         break;
     case C_SCALED:
         gen_btb(r, n, vf_logu(r, -3.0, 0.0), 0, A);
@@ -1290,6 +1323,9 @@ static void distinct_cell(fact_t const *f)
 
 static void cnt(char const *fam, char const *what);
 static void mx(char const *fam, char const *what, double v);
+#ifdef VF_FENV_ROTATE
+static void fx_count_mode(char const *what);
+#endif
 
 /* ------------------------------------------------------------------ factor + shape + reconstruction */
 static void factor(fact_t *f, int fam, unsigned cls, unsigned n, int expect, double const *A0)
@@ -1345,6 +1381,10 @@ static void factor(fact_t *f, int fam, unsigned cls, unsigned n, int expect, dou
     if (expect == EXP_FAIL)
     {
         VF_COUNT("exact-zero-pivot-reports-failure");
+#ifdef VF_FENV_ROTATE
+        VF_COUNT("fenv-exact-failure-class-judged");
+        fx_count_mode("fenv-exact-failure-judged");
+#endif
         if (f->ok)
         {
             viol2(rname, "success-on-exactly-vanishing-pivot", "%s n=%u class=%s returned success (rc=%d) although a pivot is exactly zero / non-positive by construction",
@@ -1471,6 +1511,12 @@ static void factor(fact_t *f, int fam, unsigned cls, unsigned n, int expect, dou
                 if (a > maxl) { maxl = a; mr = r; mc = c; }
             }
         }
+#ifdef VF_FENV_ROTATE
+        /* |a| <= |b| gives |fl(a/b)| <= 1 in every mode, but a multiplier formed as a * fl(1/b) can be 1 + 2^-52 when both roundings go away
+           from zero (FE_UPWARD / FE_DOWNWARD); it cannot under round-to-nearest ((1 - 2^-53)(1 + 2^-53) < 1, ties to even) and FE_TOWARDZERO */
+        if (fegetround() == FE_UPWARD || fegetround() == FE_DOWNWARD) { VF_COUNT("fenv-skipped-inexact-clause"); maxl = 0; }
+        else
+#endif
         VF_COUNT("plu-multipliers-le-1");
         VF_MAX("plu-max-multiplier", maxl);
         if (maxl > 1.0)
@@ -1524,6 +1570,11 @@ static void factor(fact_t *f, int fam, unsigned cls, unsigned n, int expect, dou
         f->sig = 0;
     }
 
+#ifdef VF_FENV_ROTATE
+    /* the componentwise reconstruction bound is a rounding-error bound stated for u = 2^-53 and its residual is formed in __float128, whose
+       software arithmetic follows the caller's rounding mode as well: not judged under a rotated mode (exact classes: see fx_exact_factors) */
+    VF_COUNT("fenv-skipped-inexact-clause");
+#else
     unsigned wr, wc;
     double wres, wbound;
     double const ratio = reconstruct(f, &wr, &wc, &wres, &wbound);
@@ -1564,6 +1615,7 @@ static void factor(fact_t *f, int fam, unsigned cls, unsigned n, int expect, dou
               "%s n=%u class=%s: entry (%u,%u) of %s: residual %.6e, bound c*(gamma*W + underflow term) = %.6e (ratio to c=1 bound %.4g)", rname, n, f->cname, wr, wc,
               fam == FAM_PLU ? "PA-LU" : fam == FAM_LDL ? "A-LDL^T" : "A-LL^T", wres, wbound, ratio);
     }
+#endif /* VF_FENV_ROTATE */
     f->judged = 1;
     distinct_cell(f);
 }
@@ -2788,6 +2840,542 @@ static void spd_det_agreement(fact_t *llt, det_t dl)
     free(R.absinv);
 }
 
+
+#ifdef VF_FENV_ROTATE
+/* ------------------------------------------------------------------ configurations fenv-exact / fenv-exact-fma (-DVF_FENV_ROTATE)
+ * vf_common.h runs every case under one of FE_DOWNWARD / FE_TOWARDZERO / FE_UPWARD / FE_TONEAREST (a function of seed and case number).  The
+ * caller's rounding mode is part of the execution environment, and C08 has clauses that do not mention a tolerance: "inputs with an exactly
+ * vanishing pivot are reported as failure", "a true row permutation whose parity matches the sign", "multipliers bounded by one", "strictly
+ * positive Cholesky diagonal".  A rounding-error bound, on the other hand, is stated for u = 2^-53, and the oracle of this harness forms its
+ * residuals in __float128, whose libgcc arithmetic honours the rounding mode as well.  So under a rotated mode ONLY what needs no rounding
+ * argument is judged (seeded change C08-K: a reciprocal + FMA correction for the LU multipliers, bit-identical to the division in
+ * round-to-nearest, turns the multiplier of a duplicated row into 1 - 2^-53 under a directed mode and an exactly singular matrix succeeds):
+ *
+ *  role FAIL     the exact-failure classes.  The argument for "a pivot is exactly 0 / <= 0" never uses the rounding direction:
+ *                  zero column: a column of +-0 stays +-0 (0 - u*l = +-0); zero row: multiplier 0/p = 0, 0 - u*0 = +-0, the row is never the
+ *                  strict column maximum unless every candidate is 0; zero matrix, zero / non-positive leading entry: no operation at all;
+ *                  duplicated / 2^k-multiple rows built so that they meet at a pivot +-2^K (gen_general): the multiplier is 2^-k by division
+ *                  and by multiplication with 1/2^K alike, in every mode, and a - (2^k a) 2^-k = +-0;
+ *                  integer L0 D0 L0^T with a zero in D0, integer L0 L0^T with a lowered pivot: every intermediate is an integer < 2^13,
+ *                  every divisor (D0, diagonal of L0) a power of two.
+ *                  duplicated / 2^k-multiple rows with a general pivot (named by the property: must fail whatever the pivot): until one of the
+ *                  two is the pivot row both receive the same operations on exactly 2^k-scaled operands, and every IEEE operation commutes with an
+ *                  exact scaling in every rounding mode; then the multiplier is a/a = 1 (2^k) and a - a*1 = +-0.  (An LU that multiplies by
+ *                  fl(1/pivot) breaks this sentence of the property, under FE_TOWARDZERO for every pivot that is not a power of two; seeded change
+ *                  C08-K - bit-identical to the division in round-to-nearest - is visible through this clause: with a power-of-two pivot its
+ *                  reciprocal, product and FMA remainder are all exact.)
+ *  role EXACT    exactly factorable inputs whose every intermediate is exactly representable (an IEEE operation whose exact result is
+ *                  representable returns it in every mode) and whose every divisor is +-2^k or whose every numerator is 0, so that the same holds
+ *                  when a quotient is formed as a * fl(1/u) and for either association of a product: permutation / diagonal / upper triangular matrices incl. the xscale-exact class
+ *                  (every multiplier is 0/pivot = 0, every update a - u*0 = a: stored storage == row-permuted input), integer L0 D0 L0^T
+ *                  (stored == L0, D0: numerators l_rc d_c, quotients l_rc), integer L0 L0^T (stored == L0: numerators l_rc l_cc, pivots the
+ *                  perfect squares 1, 4, 16; D0 in +-{1,2,4}), and - this configuration only - A = Q L0 U0 with multipliers k/4, |k| <= 3 (< 1: the
+ *                  pivot of every column is unique), integer U0, |u| <= 4, u_ii in +-{1,2,4} (stored == L0\U0, p == the unique pivot order; every
+ *                  intermediate is a multiple of 1/4 below 2^10).  They must succeed, the stored factors are compared with == ,
+ *                  b = A x0 with integer |x0| <= 4 goes through apply / lower / upper (plain and strided) / solve and must return x0 with ==
+ *                  (integer classes and scaled permutations: numerators are exact multiples of the divisor), det must be the integer
+ *                  determinant while its magnitude is <= 2^53 (every partial product is then an integer <= 2^53), permutation matrices
+ *                  with entries +-2^k: inv and inv_ == the exact inverse.
+ *  role SUCCESS  positive diagonal for LLT (pivot = an input entry >= DBL_MIN, sqrt of it > 0 in every mode): must succeed; shape only.
+ *  role SHAPE    the other classes without extreme scaling: success or failure accepted, on success only the clauses that no rounding can
+ *                  excuse: p a permutation, sign == parity, |l| <= 1 under FE_TONEAREST / FE_TOWARDZERO (there it holds for a/b and for
+ *                  a * fl(1/b); under FE_UPWARD / FE_DOWNWARD the latter can be 1 + 2^-52: counted as skipped), pivots non-zero
+ *                  (|pivot| >= DBL_MIN was tested by the library), Cholesky diagonal > 0.
+ *  role SKIP     extreme-scaling classes whose construction relies on round-to-nearest (a quotient below 2^-1075 underflows to 0 in
+ *                  round-to-nearest, to +-2^-1074 under a directed mode) or whose only clauses are bounds: not run; counted
+ *                  (fenv-skipped-inexact-class) and replaced by an EXACT / FAIL class so that the case is not wasted.
+ *  On every success additionally the clauses without arithmetic: P, P_, L, U, D extraction == stored factors, plu_apply == b[p[i]],
+ *  sgndet == sign of the pivot product and 0 for a zero pivot; guard cells and read-only arguments as everywhere.  check_user_built (integer
+ *  triangular factors built here, result x0 with ==) is exact by construction and runs unchanged.
+ *  NOT judged under a rotated mode (counted per case in fenv-skipped-inexact-clause): every reconstruction / sweep / solve / inverse residual
+ *  bound, det against the quad product of the pivots, lndet, the SPD three-method determinant agreement, the argument-form sweeps of check_forms.
+ * Calibration: unchanged tree silent at VERIF_SEED 1..5 quick and 1 thorough, default ISA and -mfma.
+ */
+enum { FX_SKIP, FX_FAIL, FX_EXACT, FX_SUCCESS, FX_SHAPE };
+
+static int fx_role(int fam, unsigned c)
+{
+    if (fam == FAM_PLU)
+    {
+        switch (c)
+        {
+        case G_F_ZEROCOL: case G_F_ZEROROW: case G_F_ZEROMAT: case G_F_DUPROW: case G_F_SCALEDDUP: return FX_FAIL;
+        case G_PERM: case G_TRIU: case G_DIAG: case G_X_EXACT: case G_FX_INTLU: return FX_EXACT;
+        case G_X_ROW: case G_X_COL: case G_X_BOTH: case G_X_GLOBAL: case G_X_BLOCK: return FX_SKIP;
+        default: return FX_SHAPE;
+        }
+    }
+    if (fam == FAM_LDL)
+    {
+        switch (c)
+        {
+        case S_F_ZERO_D: case S_F_ZEROMAT: case S_F_LEAD0: return FX_FAIL;
+        case S_INT_LDL: case S_DIAG: case S_X_DIAG: return FX_EXACT;
+        case S_X_SPD: case S_X_INDEF: case S_X_GLOBAL: return FX_SKIP;
+        default: return FX_SHAPE;
+        }
+    }
+    switch (c)
+    {
+    case C_F_LEAD: case C_F_LOWERED_LAST: case C_F_LOWERED_ANY: case C_F_ZEROMAT: return FX_FAIL;
+    case C_SPD_INT: return FX_EXACT;
+    case C_DIAG: case C_X_DIAG: return FX_SUCCESS;
+    case C_X_SPD: case C_X_GLOBAL: return FX_SKIP;
+    default: return FX_SHAPE;
+    }
+}
+static unsigned fx_substitute(int fam, vf_rng *r)
+{
+    static unsigned const g[] = {G_FX_INTLU, G_FX_INTLU, G_FX_INTLU, G_F_DUPROW, G_F_DUPROW, G_F_SCALEDDUP, G_F_ZEROCOL, G_PERM};
+    static unsigned const s[] = {S_INT_LDL, S_INT_LDL, S_F_ZERO_D};
+    static unsigned const c[] = {C_SPD_INT, C_SPD_INT, C_F_LOWERED_ANY, C_F_LOWERED_LAST};
+    if (fam == FAM_PLU) { return g[vf_below(r, sizeof(g) / sizeof(g[0]))]; }
+    if (fam == FAM_LDL) { return s[vf_below(r, sizeof(s) / sizeof(s[0]))]; }
+    return c[vf_below(r, sizeof(c) / sizeof(c[0]))];
+}
+static char const *fx_mode(void)
+{
+    int const m = fegetround();
+    return m == FE_DOWNWARD ? "FE_DOWNWARD" : m == FE_UPWARD ? "FE_UPWARD" : m == FE_TOWARDZERO ? "FE_TOWARDZERO" : "FE_TONEAREST";
+}
+static void fx_count_mode(char const *what)
+{
+    char nm[56];
+    snprintf(nm, sizeof(nm), "%s-%s", what, fx_mode());
+    vf_count_dyn(nm, 1);
+}
+
+typedef struct
+{
+    double *EF;          /* expected factor storage (PLU: all of it; LDL, LLT: diagonal and below); NULL: row-permuted input (no arithmetic) */
+    int have_ep;         /* PLU: the pivot order is unique and known */
+    unsigned ep[NMAX];
+    int x_exact;         /* b = A0 x0 and every intermediate of the sweeps are exactly representable: the solution is x0 */
+    int inv_exact;       /* permutation matrix with entries +-2^k: the inverse is exactly representable */
+    int det_known;       /* integer determinant, every partial product an integer <= 2^53 */
+    double det;
+} fx_t;
+
+/* |product| of the integer pivots while it stays <= 2^53 (then every partial product of any order is an exact integer) */
+static int fx_int_product(unsigned n, double const *d, size_t stride, int squared, double *out)
+{
+    double p = 1;
+    for (unsigned i = 0; i < n; ++i)
+    {
+        p *= fabs(d[stride * i]);
+        if (p > 0x1p26 && squared) { return 0; }
+        if (p > 0x1p53) { return 0; }
+    }
+    *out = squared ? p * p : p;
+    return 1;
+}
+
+/* A = Q L0 U0: L0 unit lower, multipliers k/4 (|k| <= 3), U0 integer upper, |u| <= 4, u_ii in +-{1,2,4}; rows of L0 U0 in random order.
+   At step k the candidates of column k are l_ik u_kk, i >= k, of which |l_kk| = 1 is the strict maximum: the pivot order is forced. */
+static void fx_gen_intlu(vf_rng *r, unsigned n, double *A, fx_t *x)
+{
+    double *L = (double *)calloc((size_t)n * n, sizeof(double)), *U = (double *)calloc((size_t)n * n, sizeof(double));
+    unsigned q[NMAX];
+    x->EF = (double *)calloc((size_t)n * n, sizeof(double));
+    for (unsigned i = 0; i < n; ++i)
+    {
+        for (unsigned k = 0; k < i; ++k) { L[(size_t)n * i + k] = (double)vf_range(r, -3, 3) / 4; }
+        L[(size_t)n * i + i] = 1;
+        U[(size_t)n * i + i] = vf_sign(r) * (double)(1 << vf_below(r, 3)); /* +-1, +-2, +-4: every divisor a power of two (gen_int_ldlt) */
+        for (unsigned k = i + 1; k < n; ++k) { U[(size_t)n * i + k] = (double)vf_range(r, -4, 4); }
+        q[i] = i;
+    }
+    for (unsigned i = n; i > 1; --i)
+    {
+        unsigned const j = (unsigned)vf_below(r, i), t = q[i - 1];
+        q[i - 1] = q[j];
+        q[j] = t;
+    }
+    for (unsigned i = 0; i < n; ++i) /* row i of A is row q[i] of L0 U0 */
+    {
+        x->ep[q[i]] = i;
+        for (unsigned k = 0; k < n; ++k)
+        {
+            double s = 0;
+            for (unsigned t = 0; t <= q[i] && t <= k; ++t) { s += L[(size_t)n * q[i] + t] * U[(size_t)n * t + k]; } /* multiples of 1/4 below 2^10: exact */
+            A[(size_t)n * i + k] = s;
+            x->EF[(size_t)n * i + k] = k < i ? L[(size_t)n * i + k] : U[(size_t)n * i + k];
+        }
+    }
+    x->have_ep = 1;
+    x->x_exact = 1;
+    x->det_known = fx_int_product(n, U, (size_t)n + 1, 0, &x->det);
+    if (x->det_known)
+    {
+        unsigned char seen[NMAX] = {0};
+        for (unsigned i = 0; i < n; ++i)
+        {
+            unsigned len = 0;
+            for (unsigned j = i; !seen[j]; j = x->ep[j]) { seen[j] = 1; ++len; }
+            if (len && !(len & 1)) { x->det = -x->det; }
+        }
+        for (unsigned i = 0; i < n; ++i) { if (U[(size_t)n * i + i] < 0) { x->det = -x->det; } }
+    }
+    free(L);
+    free(U);
+}
+
+/* the input of the case and what is known about its exact factorization */
+static int fx_generate(int fam, unsigned cls, unsigned n, vf_rng *r, double *A0, char *note, size_t nlen, fx_t *x)
+{
+    int expect;
+    memset(x, 0, sizeof(*x));
+    if (fam == FAM_PLU && cls == G_FX_INTLU)
+    {
+        note[0] = 0;
+        fx_gen_intlu(r, n, A0, x);
+        return EXP_SUCCESS;
+    }
+    if (fam == FAM_LDL && cls == S_INT_LDL)
+    {
+        double D0[NMAX], *L0 = (double *)malloc((size_t)n * n * sizeof(double));
+        note[0] = 0;
+        for (unsigned i = 0; i < n; ++i)
+        {
+            int const d = 1 << vf_below(r, 3);
+            D0[i] = vf_chance(r, 1, 2) ? -d : d;
+        }
+        gen_int_ldlt(r, n, 1, D0, L0, A0);
+        for (unsigned i = 0; i < n; ++i) { L0[(size_t)n * i + i] = D0[i]; }
+        x->EF = L0;
+        x->x_exact = 1;
+        x->det_known = fx_int_product(n, D0, 1, 0, &x->det);
+        for (unsigned i = 0; i < n; ++i) { if (D0[i] < 0) { x->det = -x->det; } }
+        return EXP_SUCCESS;
+    }
+    if (fam == FAM_LLT && cls == C_SPD_INT)
+    {
+        double *L0 = (double *)malloc((size_t)n * n * sizeof(double));
+        note[0] = 0;
+        gen_int_ldlt(r, n, 0, NULL, L0, A0);
+        x->EF = L0;
+        x->x_exact = 1;
+        x->det_known = fx_int_product(n, L0, (size_t)n + 1, 1, &x->det);
+        return EXP_SUCCESS;
+    }
+    if (fam == FAM_PLU) { expect = gen_general(cls, n, r, A0, note, nlen); }
+    else if (fam == FAM_LDL) { expect = gen_sym(cls, n, r, A0, note, nlen); }
+    else { expect = gen_spd(cls, n, r, A0, note, nlen); }
+    if (fam == FAM_PLU && cls == G_PERM) { x->x_exact = x->inv_exact = 1; } /* entries 1 or +-2^k, |k| <= 30 */
+    return expect;
+}
+
+/* stored factor storage == exact factors */
+static int fx_exact_factors(fact_t const *f, fx_t const *x)
+{
+    unsigned const n = f->n;
+    char rn[24];
+    snprintf(rn, sizeof(rn), "a_real_%s", fam_name[f->fam]);
+    VF_COUNT("fenv-exact-factorization-judged");
+    fx_count_mode("fenv-exact-factorization-judged");
+    cnt(fam_name[f->fam], "-fenv-stored-factors-equal-exact-factors");
+    if (f->fam == FAM_PLU && x->have_ep)
+    {
+        for (unsigned i = 0; i < n; ++i)
+        {
+            if (f->p[i] != x->ep[i])
+            {
+                viol2(rn, "pivot-order-differs-from-unique-pivot-order", "a_real_plu n=%u class=%s under %s: p[%u] = %u, but the strict column maximum of step %u is row %u of the input (multipliers k/4, |k| <= 3)",
+                      n, f->cname, fx_mode(), i, (unsigned)f->p[i], i, x->ep[i]);
+                return 0;
+            }
+        }
+    }
+    for (unsigned rr = 0; rr < n; ++rr)
+    {
+        unsigned const cend = f->fam == FAM_PLU ? n : rr + 1;
+        for (unsigned c = 0; c < cend; ++c)
+        {
+            double const e = x->EF ? x->EF[(size_t)n * rr + c] : f->A0[(size_t)n * f->rowmap[rr] + c];
+            double const g = f->F[(size_t)n * rr + c];
+            if (!(g == e))
+            {
+                viol2(rn, "stored-factor-differs-from-exact-factor", "%s n=%u class=%s under %s: stored[%u][%u] = %a, exact factor %a (every intermediate of the factorization is exactly representable, so no rounding can occur)",
+                      rn, n, f->cname, fx_mode(), rr, c, g, e);
+                return 0;
+            }
+        }
+    }
+    return 1;
+}
+
+static int fx_expect_vec(char const *rn, char const *clause, fact_t const *f, double const *got, double const *want, char const *what)
+{
+    for (unsigned i = 0; i < f->n; ++i)
+    {
+        if (!(got[i] == want[i]))
+        {
+            viol2(rn, clause, "%s n=%u class=%s under %s: %s[%u] = %a, exact value %a (b = A x0 with integer x0; every intermediate is exactly representable)", rn, f->n, f->cname,
+                  fx_mode(), what, i, got[i], want[i]);
+            return 0;
+        }
+    }
+    return 1;
+}
+
+/* b = A0 x0, integer |x0| <= 4, through apply / lower / upper (plain, strided) / solve: the result is x0 */
+static void fx_solve_exact(fact_t *f, vf_rng *r)
+{
+    unsigned const n = f->n;
+    int const fam = f->fam;
+    char const *fn = fam_name[fam];
+    char rn[40];
+    double x0[NMAX], b[NMAX], rhs[NMAX];
+    for (unsigned i = 0; i < n; ++i) { x0[i] = (double)vf_range(r, -4, 4); }
+    for (unsigned i = 0; i < n; ++i)
+    {
+        double s = 0;
+        for (unsigned c = 0; c < n; ++c) { s += f->A0[(size_t)n * i + c] * x0[c]; } /* exact */
+        b[i] = s;
+    }
+    log_matrix("x0", x0, 1, n);
+    log_matrix("b=A*x0", b, 1, n);
+    double *bx = xd_copy(b, n);
+    for (unsigned i = 0; i < n; ++i) { rhs[i] = fam == FAM_PLU ? b[f->p[i]] : b[i]; }
+    /* plain chain */
+    gd_t y = gd_new(n);
+    memcpy(y.v, rhs, n * sizeof(double));
+    snprintf(rn, sizeof(rn), "a_real_%s_lower", fn);
+    vf_log("%s(n, A, y) then upper", rn);
+    vf.evals += 2;
+    call_lower(fam, n, f->F, y.v, 0);
+    gd_guard(&y, rn, "y");
+    snprintf(rn, sizeof(rn), "a_real_%s_upper", fn);
+    call_upper(fam, n, f->F, y.v, 0);
+    gd_guard(&y, rn, "x");
+    inputs_intact(f, rn);
+    cnt(fn, "-fenv-lower-upper-chain-equals-x0");
+    fx_expect_vec(rn, "lower-upper-chain-not-the-exact-solution", f, y.v, x0, "x");
+    gd_free(&y);
+    /* strided chain on column j of an n x n block */
+    {
+        unsigned const j = (unsigned)vf_below(r, n);
+        gd_t M = gd_new((size_t)n * n);
+        double colv[NMAX];
+        for (size_t i = 0; i < (size_t)n * n; ++i) { M.v[i] = 1000.0 + (double)i; }
+        for (unsigned i = 0; i < n; ++i) { M.v[(size_t)n * i + j] = rhs[i]; }
+        snprintf(rn, sizeof(rn), "a_real_%s_upper_", fn);
+        vf_log("a_real_%s_lower_ then %s (column %u of an n x n block)", fn, rn, j);
+        vf.evals += 2;
+        call_lower(fam, n, f->F, M.v + j, 1);
+        call_upper(fam, n, f->F, M.v + j, 1);
+        gd_guard(&M, rn, "strided column");
+        inputs_intact(f, rn);
+        for (size_t i = 0; i < (size_t)n * n; ++i)
+        {
+            if (i % n != j && M.v[i] != 1000.0 + (double)i)
+            {
+                viol2(rn, "wrote-outside-its-column", "%s n=%u class=%s column %u: cell (%zu,%zu) of the block changed", rn, n, f->cname, j, i / n, i % n);
+                break;
+            }
+        }
+        for (unsigned i = 0; i < n; ++i) { colv[i] = M.v[(size_t)n * i + j]; }
+        cnt(fn, "-fenv-strided-chain-equals-x0");
+        fx_expect_vec(rn, "lower-upper-chain-not-the-exact-solution", f, colv, x0, "x");
+        gd_free(&M);
+    }
+    /* solve */
+    gd_t x = gd_new(n);
+    snprintf(rn, sizeof(rn), "a_real_%s_solve", fn);
+    vf_log("%s(n, A, ..)", rn);
+    ++vf.evals;
+    if (fam == FAM_PLU)
+    {
+        a_real_plu_solve(n, f->F, f->p, bx, x.v);
+        const_intact(rn, "b", bx, b, n * sizeof(double));
+    }
+    else
+    {
+        memcpy(x.v, b, n * sizeof(double));
+        if (fam == FAM_LDL) { a_real_ldl_solve(n, f->F, x.v); }
+        else { a_real_llt_solve(n, f->F, x.v); }
+    }
+    gd_guard(&x, rn, "x");
+    inputs_intact(f, rn);
+    cnt(fn, "-fenv-solve-equals-x0");
+    fx_expect_vec(rn, "not-the-exact-solution", f, x.v, x0, "x");
+    gd_free(&x);
+    free(bx);
+}
+
+/* permutation matrix with entries +-2^k: X[r][c] = 1 / A0[c][r] where that is non-zero, 0 elsewhere */
+static void fx_inverse_exact(fact_t *f)
+{
+    unsigned const n = f->n;
+    gd_t scratch = gd_new(n), X = gd_new((size_t)n * n);
+    for (int v = 0; v < 2; ++v)
+    {
+        char const *rn = v ? "a_real_plu_inv_" : "a_real_plu_inv";
+        gd_fill(&X);
+        vf_log("%s(n, A, p, ..)", rn);
+        ++vf.evals;
+        if (v) { a_real_plu_inv_(n, f->F, f->p, X.v); }
+        else { a_real_plu_inv(n, f->F, f->p, scratch.v, X.v); }
+        gd_guard(&scratch, rn, "scratch b");
+        gd_guard(&X, rn, "I");
+        inputs_intact(f, rn);
+        cnt("plu", v ? "-fenv-inv_-equals-exact-inverse" : "-fenv-inv-equals-exact-inverse");
+        for (size_t i = 0; i < (size_t)n * n; ++i)
+        {
+            double const a = f->A0[(size_t)n * (i % n) + i / n], e = a != 0 ? 1 / a : 0; /* 1 / +-2^k: exact */
+            if (!(X.v[i] == e))
+            {
+                viol2(rn, "not-the-exact-inverse", "%s n=%u class=%s under %s: X[%zu][%zu] = %a, exact inverse entry %a (permutation matrix with entries +-2^k)", rn, n, f->cname, fx_mode(),
+                      i / n, i % n, X.v[i], e);
+                break;
+            }
+        }
+    }
+    gd_free(&scratch);
+    gd_free(&X);
+}
+
+/* det == integer determinant (when known); sgndet == sign of the pivot product, 0 for a zero pivot; plu_apply == b[p[i]] */
+static void fx_det_sign_apply(fact_t *f, fx_t const *x, vf_rng *r)
+{
+    unsigned const n = f->n;
+    int const fam = f->fam;
+    char const *fn = fam_name[fam];
+    char rn[40];
+    if (x->det_known)
+    {
+        snprintf(rn, sizeof(rn), "a_real_%s_det", fn);
+        vf_log("%s(n, A%s)", rn, fam == FAM_PLU ? ", sign" : "");
+        ++vf.evals;
+        double const det = fam == FAM_PLU ? a_real_plu_det(n, f->F, f->sign) : fam == FAM_LDL ? a_real_ldl_det(n, f->F) : a_real_llt_det(n, f->F);
+        inputs_intact(f, rn);
+        cnt(fn, "-fenv-det-equals-integer-determinant");
+        if (!(det == x->det))
+        {
+            viol2(rn, "not-the-exact-integer-determinant", "%s n=%u class=%s under %s: returned %.17g, the determinant is the integer %.17g (every partial product of the integer pivots is <= 2^53)", rn, n,
+                  f->cname, fx_mode(), det, x->det);
+        }
+    }
+    if (fam != FAM_LLT)
+    {
+        int esign = fam == FAM_PLU ? f->sign : 1;
+        for (unsigned i = 0; i < n; ++i) { if (f->F[(size_t)n * i + i] < 0) { esign = -esign; } }
+        snprintf(rn, sizeof(rn), "a_real_%s_sgndet", fn);
+        vf_log("%s(n, A%s)", rn, fam == FAM_PLU ? ", sign" : "");
+        ++vf.evals;
+        int const sgn = fam == FAM_PLU ? a_real_plu_sgndet(n, f->F, f->sign) : a_real_ldl_sgndet(n, f->F);
+        inputs_intact(f, rn);
+        cnt(fn, "_sgndet-equals-sign-of-pivot-product");
+        if (sgn != esign) { viol2(rn, "not-sign-of-pivot-product", "%s n=%u class=%s: returned %d, sign * prod sign(pivot) = %d", rn, n, f->cname, sgn, esign); }
+        double *Z = xd_copy(f->F, (size_t)n * n);
+        unsigned const k = (unsigned)(vf.case_no % n);
+        Z[(size_t)n * k + k] = (vf.case_no & 8) ? -0.0 : 0.0;
+        vf_log("%s(n, A with pivot %u := 0)", rn, k);
+        ++vf.evals;
+        int const z = fam == FAM_PLU ? a_real_plu_sgndet(n, Z, f->sign) : a_real_ldl_sgndet(n, Z);
+        cnt(fn, "_sgndet-zero-pivot-gives-0");
+        if (z != 0) { viol2(rn, "nonzero-for-zero-pivot", "%s n=%u: pivot %u set to zero but %d returned", rn, n, k, z); }
+        free(Z);
+    }
+    if (fam == FAM_PLU)
+    {
+        double b[NMAX];
+        for (unsigned i = 0; i < n; ++i) { b[i] = vf_uniform(r, -1.0, 1.0); }
+        double *bx = xd_copy(b, n);
+        gd_t Pb = gd_new(n);
+        vf_log("a_real_plu_apply(n, p, b, Pb)");
+        ++vf.evals;
+        a_real_plu_apply(n, f->p, bx, Pb.v);
+        gd_guard(&Pb, "a_real_plu_apply", "Pb");
+        const_intact("a_real_plu_apply", "b", bx, b, n * sizeof(double));
+        const_intact("a_real_plu_apply", "p", f->p, f->pref, n * sizeof(a_uint));
+        VF_COUNT("plu_apply-equals-b[p[i]]");
+        for (unsigned i = 0; i < n; ++i)
+        {
+            if (memcmp(&Pb.v[i], &b[f->p[i]], sizeof(double)) != 0)
+            {
+                viol2("a_real_plu_apply", "not-b-permuted-by-p", "n=%u class=%s: Pb[%u]=%a but b[p[%u]=%u]=%a", n, f->cname, i, Pb.v[i], i, f->p[i], b[f->p[i]]);
+                break;
+            }
+        }
+        gd_free(&Pb);
+        free(bx);
+    }
+}
+
+static void fx_case(uint64_t c, vf_rng *r)
+{
+    int const fam = (int)(c % 3);
+    uint64_t const idx = c / 3;
+    uint64_t const per_fam = vf_ncases(vf.tier) / 3;
+    uint64_t const nstruct = per_fam * 6 / 10;
+    unsigned const nc = ncls(fam) + (fam == FAM_PLU); /* + the exact Q L0 U0 class of this configuration */
+    unsigned n, cls;
+    if (idx < nstruct)
+    {
+        n = (unsigned)(idx % 12) + 1;
+        cls = (unsigned)((idx / 12) % nc);
+    }
+    else
+    {
+        double const u = vf_unit(r);
+        n = vf_chance(r, 1, 3) ? 1 + (unsigned)vf_below(r, 12) : 13 + (unsigned)(36.0 * u * u);
+        if (n > NMAX) { n = NMAX; }
+        cls = (unsigned)vf_below(r, nc);
+    }
+    if (fx_role(fam, cls) == FX_SKIP)
+    {
+        VF_COUNT("fenv-skipped-inexact-class");
+        cls = fx_substitute(fam, r);
+    }
+    int const role = fx_role(fam, cls);
+    double *A0 = (double *)malloc((size_t)n * n * sizeof(double));
+    char note[160];
+    fx_t x;
+    int const expect = fx_generate(fam, cls, n, r, A0, note, sizeof(note), &x);
+    vf_log("rounding mode %s; family=%s n=%u class=%s %s expect=%s", fx_mode(), fam_name[fam], n, cls_name(fam, cls), note,
+           expect == EXP_FAIL ? "failure (pivot exactly vanishing by construction)" : expect == EXP_SUCCESS ? "success (exactly factorable)" : "either");
+    log_matrix("A", A0, n, n);
+
+    fact_t f;
+    factor(&f, fam, cls, n, expect, A0);
+    if (!f.ok && expect == EXP_FAIL && vf_want_sample() && n >= 2 && n <= 4 && c % 5 == 1 && fegetround() != FE_TONEAREST)
+    {
+        vf_sample("a_real_%s n=%u class=%s (%s) under %s: A[0][0..1]=(%g,%g): failure reported as required", fam_name[fam], n, f.cname, note, fx_mode(), A0[0], A0[1]);
+    }
+    if (f.ok && f.judged)
+    {
+        unsigned skipped = 6; /* solve bound, second right-hand side / argument forms, inverse column bounds, inv vs inv_, det vs quad product, lndet */
+        check_extract(&f);
+        fx_det_sign_apply(&f, &x, r);
+        if (role == FX_EXACT)
+        {
+            if (fx_exact_factors(&f, &x))
+            {
+                if (x.x_exact) { fx_solve_exact(&f, r); --skipped; }
+                if (x.inv_exact) { fx_inverse_exact(&f); skipped -= 2; }
+                if (x.det_known) { --skipped; }
+                if (vf_want_sample() && n >= 3 && n <= 6 && c % 11 == 4 && fegetround() != FE_TONEAREST)
+                {
+                    vf_sample("a_real_%s n=%u class=%s under %s: stored factors == exact factors%s%s", fam_name[fam], n, f.cname, fx_mode(), x.x_exact ? ", lower/upper/solve of b = A*x0 == x0" : "",
+                              x.det_known ? ", det == integer determinant" : "");
+                }
+            }
+        }
+        else { VF_COUNT("fenv-shape-only-class-judged"); }
+        if (fam == FAM_LLT && n <= 24 && (cls == C_SPD || cls == C_SPD_INT || cls == C_SCALED || cls == C_DIAG || cls == C_TRIDIAG)) { ++skipped; }
+        VF_ADD("fenv-skipped-inexact-clause", skipped);
+    }
+    fact_free(&f);
+    free(x.EF);
+    free(A0);
+    if (c / 36 % 4 == 0) { check_user_built(fam, n, r); }
+}
+#endif /* VF_FENV_ROTATE */
+
+#ifdef VF_FENV_ROTATE
+static void vf_case(uint64_t c, vf_rng *r) { fx_case(c, r); }
+#else
 static void vf_case(uint64_t c, vf_rng *r)
 {
     int const fam = (int)(c % 3);
@@ -2849,3 +3437,4 @@ static void vf_case(uint64_t c, vf_rng *r)
        drives the sweeps on integer factors built here, independent of the matrix of the case */
     if (c / 36 % 4 == 0) { check_user_built(fam, n, r); }
 }
+#endif /* VF_FENV_ROTATE */
